@@ -255,7 +255,7 @@ EntriesNotify(n, i, other) ==
   LET slots == IF other.sch # "none" /\ CanonAuth(other) = CanonAuth(n) /\ ~Equivalent(other, n)
                THEN {0, 1} ELSE {0} IN
   {E(RepoDir(n), "dir", "run"), E(StorePointPath(FixedMft(i), n), "file", "run")}
-  \cup (IF CanonAuth(n) = "" THEN {}        \* an archive directly in cache/rrdp is a stray file for the cleanup
+  \cup (IF CanonAuth(n) \in {"", "."} THEN {}  \* an archive directly in cache/rrdp is a stray file for the cleanup
         ELSE {E(RrdpArchivePath(n), "file", "run")})               \* (rrdp/base.rs:493): gone after the run
   \cup (IF CanonAuth(n) = ".." THEN {}      \* the dump walks stored/rrdp (store.rs:268): this one is not below it
         ELSE {E(DumpObjectPath(FixedMft(i), n, s), "file", IF s = 0 THEN "dump" ELSE "dump2") : s \in slots})
